@@ -194,6 +194,13 @@ func OptLen(r *rand.Rand) int {
 	}
 }
 
+func cloneIP(ip net.IP) net.IP {
+	if ip == nil {
+		return nil
+	}
+	return append(net.IP{}, ip...)
+}
+
 // Packet draws one packet of the C01 domain. maxOpts bounds the option count.
 func Packet(r *rand.Rand, maxOpts int) (*dhcpv4.DHCPv4, *ref4.P4) {
 	p := &dhcpv4.DHCPv4{Options: dhcpv4.Options{}}
@@ -245,6 +252,24 @@ func Packet(r *rand.Rand, maxOpts int) (*dhcpv4.DHCPv4, *ref4.P4) {
 		hl = 16
 	case 2:
 		hl = 0
+	}
+	if r.IntN(5) == 0 {
+		// the (hardware type, address length) pairs that exist: Ethernet, IEEE 802, EUI-64, InfiniBand (which sends hlen 0,
+		// RFC 4390, or its 8-octet GUID / the first 16 octets of its 20-octet address), IEEE 1394, frame relay, serial line
+		pr := [][2]int{{1, 6}, {6, 6}, {27, 8}, {32, 0}, {32, 0}, {32, 16}, {32, 8}, {24, 8}, {15, 2}, {20, 1}, {1, 0}}[r.IntN(11)]
+		p.HWType, e.HType, hl = iana.HWType(pr[0]), byte(pr[0]), pr[1]
+		if r.IntN(2) == 0 {
+			p.Flags &^= 0x8000
+			e.Flags = p.Flags
+		}
+	}
+	// related header addresses: the address a server hands out is the one the client already holds (ciaddr = yiaddr), the
+	// relay is the server (giaddr = siaddr)
+	switch r.IntN(12) {
+	case 0:
+		p.ClientIPAddr, e.CI = cloneIP(p.YourIPAddr), e.YI
+	case 1:
+		p.GatewayIPAddr, e.GI = cloneIP(p.ServerIPAddr), e.SI
 	}
 	hw := make([]byte, hl)
 	for i := range hw {
